@@ -262,8 +262,9 @@ func mwEvents(t *testing.T, h *H) {
 		}, "[5"},
 	}
 	chains := [][]bool{nil, {true}, {false}, {true, true}, {true, false}, {false, true}, {true, true, false}, {true, false, true}}
-	for _, sg := range sigs {
-		for _, chain := range chains {
+	for si, sg := range sigs {
+		for ci, chain := range chains {
+			nh := 1 + (si+ci)%3 // handlers registered for the event: 1..3
 			var mu sync.Mutex
 			var seen []string
 			var mwCalls []int
@@ -285,7 +286,9 @@ func mwEvents(t *testing.T, h *H) {
 							return nil
 						})
 					}
-					sg.on(s, func(string) { mu.Lock(); handler++; mu.Unlock() })
+					for k := 0; k < nh; k++ {
+						sg.on(s, func(string) { mu.Lock(); handler++; mu.Unlock() })
+					}
 				})
 				m := r.manager([]string{"polling"}, &sio.ManagerConfig{NoReconnection: true})
 				c := m.Socket("/", nil)
@@ -311,16 +314,18 @@ func mwEvents(t *testing.T, h *H) {
 			if ans == "" {
 				ans = "-"
 			}
-			h.Case(req, fmt.Sprintf("calls=%s handler=%s", ans, b01(handler > 0)))
-			desc := fmt.Sprintf("handler signature (%s), event middlewares %v", sg.name, chain)
+			if nh == 1 {
+				h.Case(req, fmt.Sprintf("calls=%s handler=%s", ans, b01(handler > 0)))
+			}
+			desc := fmt.Sprintf("handler signature (%s), %d handler(s) for the event, event middlewares %v", sg.name, nh, chain)
 			h.NonTrivial(desc)
 			h.Dist("events." + sg.name)
 			allOK := true
 			for _, ok := range chain {
 				allOK = allOK && ok
 			}
-			if allOK && handler != 1 {
-				h.Violation("C12", "an event every middleware accepted does not reach its handler", desc, fmt.Sprintf("handler ran %d times; middlewares saw %v", handler, seen))
+			if allOK && handler != nh {
+				h.Violation("C12", "an event every middleware accepted does not reach its handler", desc, fmt.Sprintf("%d handler invocations for %d handlers; middlewares saw %v", handler, nh, seen))
 			}
 			if !allOK && handler != 0 {
 				h.Violation("C12", "an event a middleware rejected reaches the handler", desc, fmt.Sprintf("handler ran %d times", handler))
